@@ -954,6 +954,116 @@ Proof.
 Qed.
 
 (* ------------------------------------------------------------------ *)
+(* match_instances on an arbitrary predicted frame: score-less instances, NaN scores (review round 4) *)
+Lemma insert_desc_o_perm x l : Permutation (insert_desc_o x l) (x :: l).
+Proof.
+  induction l as [|y t IH]; cbn [insert_desc_o]; [reflexivity|].
+  destruct (ogt (fst y) (fst x)); [|reflexivity].
+  etransitivity; [apply perm_skip; exact IH|apply perm_swap].
+Qed.
+
+Lemma sort_desc_o_perm l : Permutation (sort_desc_o l) l.
+Proof.
+  induction l as [|x l IH]; cbn [sort_desc_o fold_right]; [reflexivity|].
+  etransitivity; [apply insert_desc_o_perm|]. apply perm_skip. exact IH.
+Qed.
+
+Lemma argsort_desc_o_perm scores : Permutation (argsort_desc_o scores) (seq 0 (length scores)).
+Proof.
+  unfold argsort_desc_o. etransitivity; [apply Permutation_map; apply sort_desc_o_perm|].
+  rewrite map_snd_zip by (rewrite seq_length; reflexivity). reflexivity.
+Qed.
+
+(* on rational scores the order is the one of argsort_desc *)
+Definition somef (x : Q * nat) : option Q * nat := (Some (fst x), snd x).
+
+Lemma insert_desc_o_some x l :
+  insert_desc_o (somef x) (map somef l) = map somef (insert_desc x l).
+Proof.
+  induction l as [|y t IH]; cbn [insert_desc_o insert_desc map]; [reflexivity|].
+  unfold somef at 1 2. cbn [fst snd ogt].
+  destruct (Qltb (fst x) (fst y)); cbn [map]; [|reflexivity].
+  f_equal. exact IH.
+Qed.
+
+Lemma sort_desc_o_some l : sort_desc_o (map somef l) = map somef (sort_desc l).
+Proof.
+  induction l as [|x l IH]; cbn [sort_desc_o sort_desc fold_right map]; [reflexivity|].
+  fold (sort_desc_o (map somef l)). fold (sort_desc l). rewrite IH. apply insert_desc_o_some.
+Qed.
+
+Lemma zip_map_some (l : list Q) : forall (m : list nat),
+  zip (map Some l) m = map somef (zip l m).
+Proof.
+  induction l as [|a l IH]; intros [|b m]; cbn [zip map]; try reflexivity.
+  unfold somef at 1. cbn [fst snd]. f_equal. apply IH.
+Qed.
+
+Lemma argsort_desc_o_some scores : argsort_desc_o (map Some scores) = argsort_desc scores.
+Proof.
+  unfold argsort_desc_o, argsort_desc. rewrite map_length, zip_map_some, sort_desc_o_some, map_map.
+  apply map_ext. intros x. reflexivity.
+Qed.
+
+Lemma scored_scores scores : scored (map Score scores) = map Some scores.
+Proof. induction scores as [|q l IH]; cbn [scored flat_map map app]; [reflexivity|]. f_equal. exact IH. Qed.
+
+Lemma match_instances_gen_scores fx n_gt scores M thr :
+  match_instances_gen fx n_gt (map Score scores) M thr = match_instances fx n_gt scores M thr.
+Proof.
+  unfold match_instances_gen, match_instances. rewrite scored_scores.
+  destruct n_gt as [|n]; [destruct scores as [|q l]; reflexivity|].
+  rewrite argsort_desc_o_some. reflexivity.
+Qed.
+
+Lemma scored_length prs : (length (scored prs) <= length prs)%nat.
+Proof.
+  induction prs as [|s l IH]; cbn [scored flat_map length]; [lia|].
+  fold (scored l). rewrite app_length. destruct s; cbn [length]; lia.
+Qed.
+
+Lemma scored_length_noscore prs : In NoScore prs -> (length (scored prs) < length prs)%nat.
+Proof.
+  induction prs as [|s l IH]; intros Hin; [contradiction|].
+  cbn [scored flat_map length]. fold (scored l). rewrite app_length.
+  destruct Hin as [Hs|Hin].
+  - subst s. cbn [length]. pose proof (scored_length l). lia.
+  - specialize (IH Hin). destruct s; cbn [length]; lia.
+Qed.
+
+(* one-to-one and conservation for every predicted frame; only the first `length (scored prs)`
+   instances of the predicted frame can be matched (the index shift of the hasattr filter) *)
+Lemma match_instances_gen_spec fx n_gt prs M thr ms missed :
+  match_instances_gen fx n_gt prs M thr = Some (ms, missed) ->
+  NoDup (map gt_of ms) /\ NoDup (map pr_of ms) /\
+  Permutation (map gt_of ms ++ missed) (seq 0 n_gt) /\
+  Forall (fun m => (gt_of m < n_gt)%nat /\ (pr_of m < length (scored prs))%nat /\ (pr_of m < length prs)%nat /\
+                   mget M (gt_of m) (pr_of m) = Some (oks_of m) /\ eligible thr (oks_of m)) ms.
+Proof.
+  intros H.
+  assert (Hloop : match_loop M thr (argsort_desc_o (scored prs)) (seq 0 n_gt) = (ms, missed) \/
+                  (ms = [] /\ missed = [] /\ n_gt = 0%nat)).
+  { unfold match_instances_gen in H. destruct n_gt as [|n]; [destruct (scored prs) as [|s0 sc]|].
+    - left. inversion H. reflexivity.
+    - destruct fx; [|discriminate]. inversion H; subst. right. auto.
+    - left. inversion H. reflexivity. }
+  destruct Hloop as [Hloop|[H1 [H2 H3]]].
+  - pose proof (match_loop_perm _ _ _ _ _ _ Hloop) as Hperm.
+    assert (Hnd : NoDup (map gt_of ms ++ missed)).
+    { eapply Permutation_NoDup; [apply Permutation_sym; exact Hperm|apply seq_NoDup]. }
+    split; [eapply NoDup_app_l; exact Hnd|].
+    split.
+    { eapply match_loop_pr_nodup; [exact Hloop|].
+      eapply Permutation_NoDup; [apply Permutation_sym; apply argsort_desc_o_perm|apply seq_NoDup]. }
+    split; [exact Hperm|].
+    pose proof (match_loop_pairs _ _ _ _ _ _ Hloop) as Hp. eapply Forall_impl; [|exact Hp].
+    intros m [Hg [Hpr Hrest]]. split; [apply in_seq in Hg; lia|].
+    eapply Permutation_in in Hpr; [|apply argsort_desc_o_perm]. apply in_seq in Hpr.
+    pose proof (scored_length prs). split; [lia|]. split; [lia|exact Hrest].
+  - subst. cbn. repeat split; constructor.
+Qed.
+
+(* ------------------------------------------------------------------ *)
 (* greedy_matching: one-to-one, only existing edges, maximal *)
 Lemma greedy_take_incl : forall fuel es, incl (greedy_take fuel es) es.
 Proof.
@@ -1198,4 +1308,29 @@ Proof.
   rewrite nth_error_map, Hg in Hg'. rewrite nth_error_map, Hp in Hp'. cbn [option_map] in *.
   inversion Hg'; inversion Hp'; subst. apply oks_pair_translate.
   eapply scale_list_translate; eauto.
+Qed.
+
+(* ------------------------------------------------------------------ *)
+(* reordering with a VECTOR scale (review round 4, 6c): permuting the gt instances together with their
+   scales, and the predictions, permutes the matrix entries *)
+Lemma nth_error_pick {A} (d : A) idx l a i x :
+  nth_error idx a = Some i -> nth_error l i = Some x -> nth_error (pick d idx l) a = Some x.
+Proof.
+  intros Ha Hi. unfold pick. rewrite nth_error_map, Ha. cbn [option_map]. f_equal.
+  apply nth_error_nth. exact Hi.
+Qed.
+
+Lemma oks_matrix_reorder_vector n_ed n gts prs l sd coco pi pj a b i j g p s :
+  nth_error pi a = Some i -> nth_error pj b = Some j ->
+  nth_error gts i = Some g -> nth_error prs j = Some p -> nth_error l i = Some s ->
+  entry (oks_matrix n_ed n (pick [] pi gts) (pick [] pj prs) (ScVec (pick 0%Q pi l)) sd coco) a b =
+  entry (oks_matrix n_ed n gts prs (ScVec l) sd coco) i j.
+Proof.
+  intros Ha Hb Hg Hp Hs.
+  rewrite (oks_matrix_entry n_ed n gts prs (ScVec l) sd coco i j g p (Some s) Hg Hp)
+    by (cbn [scale_list]; rewrite nth_error_map, Hs; reflexivity).
+  apply oks_matrix_entry.
+  - eapply nth_error_pick; eassumption.
+  - eapply nth_error_pick; eassumption.
+  - cbn [scale_list]. rewrite nth_error_map. rewrite (nth_error_pick 0%Q pi l a i s Ha Hs). reflexivity.
 Qed.
